@@ -43,9 +43,13 @@ RULE = ("BFS over histories of {call(side, kind in ok/later/declared-error/undec
         "box received, call kinds+results, responder invocations+completion).  non-trivial = distinct states in which "
         "two calls were outstanding at once, an answer overtook another, a loss hit an outstanding call, or a box was "
         "partially delivered; plus an exhaustive error-mapping matrix: every responder behaviour incl. a command hierarchy's "
-        "own / inherited, plain / fatal declared errors, immediate and late, from either side, as full single-call scenarios")
-BOUNDS = {"quick": "<= 3 calls in total (any split between the sides), depth 6 (sharded on the first 2 events); immediate declared error raised as a subclass, late one as the exact class",
-          "thorough": "<= 3 calls per side, <= 4 in total, depth 7 (sharded on the first 2 events)"}
+        "own / inherited, plain / fatal declared errors, immediate and late, from either side, as full single-call scenarios; "
+        "plus a volume family: one long-lived connection carrying n calls in 3 answer patterns (all outstanding then answered in "
+        "reverse; all outstanding, all but the first 50 answered, then loss; one early call outstanding while every later call is "
+        "answered at once, then loss): every Deferred fires exactly once with its own answer or the loss reason and no two "
+        "outstanding questions share a tag")
+BOUNDS = {"quick": "<= 3 calls in total (any split between the sides), depth 6 (sharded on the first 2 events); immediate declared error raised as a subclass, late one as the exact class; volume n = 4097, 65537 (one deterministic history per n and pattern)",
+          "thorough": "<= 3 calls per side, <= 4 in total, depth 7 (sharded on the first 2 events); volume n = 4097, 65537, 2**20+1"}
 ASSUMPTIONS = [
     "the peers talk over MemTransport: bytes written after loseConnection are dropped (a real TCP transport would still "
     "send them); the reference follows the bytes actually on the wire, so both behaviours are accepted",
@@ -500,8 +504,102 @@ def prefixes(tier):
     return found
 
 
+VOLUMES = {"quick": [4097, 65537], "thorough": [4097, 65537, (1 << 20) + 1]}
+VOLUME_MODES = ["all-outstanding-answer-reverse", "all-outstanding-answer-forward-keep-first-50",
+                "one-early-call-outstanding-others-answered-at-once"]
+
+
 def shards(tier, seed):
-    return [["matrix"], ["root"]] + [["prefix", p] for p in prefixes(tier)]
+    return ([["matrix"], ["root"]] + [["prefix", p] for p in prefixes(tier)]
+            + [["volume", n, m] for n in VOLUMES[tier] for m in VOLUME_MODES])
+
+
+def _box(d):
+    out = b""
+    for k, v in d.items():
+        out += struct.pack("!H", len(k)) + k + struct.pack("!H", len(v)) + v
+    return out + b"\x00\x00"
+
+
+def run_volume(n, mode):
+    """Long-lived connection (round-10 miss C31-m): ``n`` calls on one connection, so that any bound on the
+    space of question tags is crossed (2**12, 2**16, thorough 2**20).  Deterministic single history per
+    (n, mode); oracle = the statement: every Deferred fires exactly once, with its own answer, or with the
+    loss reason if unanswered at disconnect; plus the wire-level cause: no two outstanding questions share a tag."""
+    bad = []
+    side = Side("A", 0)
+    proto, tr = side.proto, side.tr
+    results = {}          # i -> list of outcomes
+    tags = {}             # i -> tag
+    outstanding = {}      # tag -> i
+
+    def ask(i):
+        tr.clear()
+        d = proto.callRemote(Sum, a=i)
+        results[i] = []
+        d.addCallbacks(lambda v, i=i: results[i].append(("ok", v.get("total"))),
+                       lambda f, i=i: results[i].append(("err", f.type.__name__)))
+        boxes, tail = walk_boxes(b"".join(tr.written))
+        asks = [b for b in boxes if b.get(b"_ask") is not None]
+        if len(asks) != 1 or tail:
+            bad.append(("AMP:volume:question-not-written", "call %d of %d (%s)" % (i, n, mode)))
+            return False
+        t = asks[0][b"_ask"]
+        if t in outstanding:
+            bad.append(("AMP:volume:outstanding-questions-share-a-tag",
+                        "call %d reuses tag %r of unanswered call %d (%d calls made, %s)" % (i, t, outstanding[t], i, mode)))
+            return False
+        tags[i] = t
+        outstanding[t] = i
+        return True
+
+    def answer(i):
+        t = tags[i]
+        del outstanding[t]
+        proto.dataReceived(_box({b"_answer": t, b"total": b"%d" % (1000 + i)}))
+
+    keep = set()
+    if mode == "all-outstanding-answer-reverse":
+        for i in range(1, n + 1):
+            if not ask(i):
+                return bad
+        for i in range(n, 0, -1):
+            answer(i)
+    elif mode == "all-outstanding-answer-forward-keep-first-50":
+        keep = set(range(1, 51))
+        for i in range(1, n + 1):
+            if not ask(i):
+                return bad
+        for i in range(51, n + 1):
+            answer(i)
+    else:
+        keep = {1}
+        if not ask(1):
+            return bad
+        for i in range(2, n + 1):
+            if not ask(i):
+                return bad
+            answer(i)
+    for i in sorted(results):
+        if i in keep:
+            if results[i]:
+                bad.append(("AMP:volume:unanswered-call-fired", "call %d of %d (%s): %r" % (i, n, mode, results[i][:2])))
+                return bad
+        elif results[i] != [("ok", 1000 + i)]:
+            bad.append(("AMP:volume:call-did-not-get-its-own-answer-exactly-once",
+                        "call %d of %d (%s): %r" % (i, n, mode, results[i][:3])))
+            return bad
+    proto.connectionLost(Failure(LossA()))
+    for i in sorted(keep):
+        if results[i] != [("err", "LossA")]:
+            bad.append(("AMP:volume:unanswered-call-not-failed-once-with-loss-reason",
+                        "call %d of %d (%s): %r" % (i, n, mode, results[i][:3])))
+            return bad
+    for i in sorted(results):
+        if len(results[i]) != 1:
+            bad.append(("AMP:volume:fired-more-than-once", "call %d of %d (%s): %r" % (i, n, mode, results[i][:3])))
+            return bad
+    return bad
 
 
 def matrix_histories():
@@ -551,6 +649,15 @@ def run_shard(shard, tier, seed):
     if shard[0] == "matrix":
         run_matrix(stats, tier)
         return stats
+    if shard[0] == "volume":
+        for sig, detail in run_volume(shard[1], shard[2]):
+            stats.violation(sig, detail, {"volume": [shard[1], shard[2]], "tier": tier})
+        stats.states += 1
+        stats.transitions += 2 * shard[1]
+        stats.traces += 1
+        stats.nt(("volume", shard[1], shard[2]))
+        stats.outcome("volume:" + shard[2])
+        return stats
     if shard[0] == "root":
         prefix, d = [], plen
     else:
@@ -577,6 +684,8 @@ def run_shard(shard, tier, seed):
 
 
 def replay(w):
+    if "volume" in w:
+        return run_volume(*w["volume"])
     st = initial_for(w.get("tier", "quick"), w.get("prefix", []))()
     for ev in w["history"]:
         apply(st, ev)
